@@ -116,6 +116,8 @@ def _one(args):
         if res.error:
             return (m["name"], "twin-noisy", "ANALYSIS-ERROR " + res.error[:300])
         decide(res)
+        if res.error or res.rule_errors:
+            return (m["name"], "twin-noisy", "ANALYSIS-ERROR " + (res.error or str(res.rule_errors))[:300])
         keys = [f.key for f in res.violations]
         return (m["name"], "twin-silent", "") if not keys else (m["name"], "twin-noisy", "; ".join(keys[:4]))
     if m.get("patch"):
@@ -153,8 +155,16 @@ def _one(args):
             return (m["name"], "detected", "as analysis error: " + res.error[:160])
         return (m["name"], "missed", "ANALYSIS-ERROR instead of a finding: " + res.error[:300])
     decide(res)
+    if res.error:
+        if m.get("twin"):
+            return (m["name"], "twin-noisy", "ANALYSIS-ERROR " + res.error[:300])
+        if m.get("expect_error") and m["expect_error"] in res.error:
+            return (m["name"], "detected", "as analysis error: " + res.error[:160])
+        return (m["name"], "missed", "ANALYSIS-ERROR instead of a finding: " + res.error[:300])
     keys = [f.key for f in res.violations]
     if m.get("twin"):
+        if res.rule_errors:
+            return (m["name"], "twin-noisy", "ANALYSIS-ERROR " + str(res.rule_errors)[:300])
         return (m["name"], "twin-silent", "") if not keys else (m["name"], "twin-noisy", "; ".join(keys[:4]))
     hit = [k for k in keys if m["expect"] in k]
     if hit:
